@@ -211,7 +211,7 @@ static void gen_conf_file(plan_t *p, rng_t *r, const char *name, int allow_exec,
             else if (c < 90) add("%%version() %%appname()\n");
             else if (c < 92) add("%%dirscan(/cfg/d)\n");
             else if (c < 94 && allow_exec) add(rng_chance(r, 1, 2) ? "%%exec(echo hello   world)\n" : "x `echo back quoted` y\n");
-            else if (c < 95 && allow_exec) add("%%preproc cat\n");
+            else if (c < 95 && allow_exec && level == 0) add("%%preproc cat\n");      /* (re-reading a self-including file doubles the recursion at every level) */
             else if (c < 97) add("trailing backslash \\\n");
             else add("unterminated ${V1 and $(HOME\n");
         }
